@@ -18,7 +18,7 @@ EXPLANATION = (
     'not decided.')
 ASSUMPTIONS = ['text-mode open() uses strict error handling (locale codec)',
                'A5: KeyError/IndexError/AttributeError are not modelled']
-MINIMUM = {'R19.1': 8, 'R19.2': 1, 'R19.3': 2, 'R19.4': 4}
+MINIMUM = {'R19.1': 8, 'R19.2': 1, 'R19.3': 2, 'R19.4': 4, 'R19.5': 4}
 
 
 # rules of sibling properties that are necessary conditions of this one too
@@ -134,6 +134,26 @@ def check(ctx):
                    message='%s: dates parsed with %s are mixed in one %s: an offset-aware '
                            'datetime does not compare with a naive one (TypeError aborts the '
                            'command for every entry)' % (cmd, sorted(fmts), what))
+    # ---- R19.5 undecodable bytes fail at the read (inside the entry's handler), they are
+    # not smuggled into the text as lone surrogates that fail later, at the print
+    for cmd in ('list', 'restore', 'rm', 'empty'):
+        b = ctx.graph(cmd)
+        seen5 = set()
+        for e in b.effects('OPEN_READ'):
+            if (e.file, e.line) in seen5:
+                continue
+            seen5.add((e.file, e.line))
+            kw = e.data['kwargs']
+            err = strip(kw['errors']) if 'errors' in kw else None
+            ok = err is None or is_const(err, 'strict', 'replace', 'ignore',
+                                         'backslashreplace', None)
+            ctx.ob('R19.5', '%s: a .trashinfo is decoded strictly (or lossily), never with '
+                            'surrogate escapes' % cmd, ok, node=e,
+                   message='%s opens .trashinfo files with errors=%s: undecodable bytes in a '
+                           'Path become lone surrogates; the entry then parses, and printing '
+                           'it raises UnicodeEncodeError outside the per-entry handler -- one '
+                           'foreign entry aborts the listing of all the others'
+                           % (cmd, short(err)))
     # ---- R19.3
     for cmd in ('list', 'restore', 'rm', 'empty'):
         b = ctx.graph(cmd)
